@@ -229,7 +229,7 @@ func (e *Env) unflatten(t types.Type, terms *[]string) Value {
 		}
 		return tp
 	case *types.Pointer:
-		if _, isArr := u.Elem().Underlying().(*types.Array); isArr {
+		if at, isArr := u.Elem().Underlying().(*types.Array); isArr && !isByte(at.Elem()) {
 			return &Ptr{Kind: "arr", Ref: take(), Root: u.Elem(), Typ: t}
 		}
 		return &Ptr{Kind: "obj", Ref: take(), Root: u.Elem(), Typ: t}
